@@ -10,6 +10,7 @@ import (
 	"errors"
 	"fmt"
 	"math/big"
+	"runtime/debug"
 	"sort"
 	"strings"
 	"time"
@@ -239,7 +240,7 @@ func observeH(hc *HCase) (hb *hbuilt) {
 	defer func() {
 		if r := recover(); r != nil {
 			hc.Verdict = 11
-			hc.Err = fmt.Sprintf("panic: %v", r)
+			hc.Err = fmt.Sprintf("panic: %v\n%s", r, debug.Stack())
 		}
 	}()
 	acMode = hc.Kind == "ac"
@@ -473,10 +474,7 @@ const (
 // oracleH: what an accepted well-formed header-path case must satisfy
 func oracleH(hc *HCase, hb *hbuilt) []string {
 	if hc.Verdict == 11 {
-		if hc.wellFormed() {
-			return []string{whatPanic}
-		}
-		return nil
+		return nil // a crash is an outcome of its own, not an acceptance
 	}
 	if hc.Verdict != 0 || !hc.wellFormed() {
 		return nil
